@@ -614,10 +614,21 @@ KERNEL_GROUPS['KernelsLift'] = [
     ('exon.py', 'Exon.get_codon', 'k_exon_get_codon', 'exon'),
     ('exon.py', 'Exon.get_codon_at', 'k_exon_get_codon_at', 'exon'),
 ]
+KERNEL_GROUPS['KernelsGpo'] = [
+    # the liftover tables of GenomicPositionOffsets: loops over the sorted variant statistics (for -> fold_m / fold_x)
+    ('var_stats.py', 'VarStats.alt_ref_delta', 'kg_vs_alt_ref_delta', 'vstat'),
+    ('var_stats.py', 'get_alt_ref_delta', 'k_get_alt_ref_delta', None),
+    ('genomic_position_offsets.py', 'get_pos_offset', 'k_get_pos_offset', None),
+    ('genomic_position_offsets.py', '_compute_ref_offsets', 'k_compute_ref_offsets', None),
+    ('genomic_position_offsets.py', '_compute_ref_del_mask', 'k_compute_ref_del_mask', None),
+    ('genomic_position_offsets.py', '_compute_alt_ins_mask', 'k_compute_alt_ins_mask', None),
+]
+KERNEL_BUILTINS = {'KernelsGpo': ('get_u8_array',)}
 KERNEL_EXTRA_SOURCES = {'KernelsMave': ['enums.py'], 'KernelsNames': ['enums.py', 'constants.py'], 'KernelsLift': ['enums.py']}
 KERNEL_CONSTS = {'KernelsNames': ('REVCOMP_OLIGO_NAME_SUFFIX',)}
 KERNEL_IMPORTS = {'KernelsTargeton': ' Model.Targeton', 'KernelsMave': ' Model.Seq Model.Vcf Model.Mave Model.PyStr',
-                  'KernelsNames': ' Model.Seq Model.Vcf Model.Mave Model.PyStr', 'KernelsLift': ' Model.Seq Model.Vcf Model.Gpo'}
+                  'KernelsNames': ' Model.Seq Model.Vcf Model.Mave Model.PyStr', 'KernelsLift': ' Model.Seq Model.Vcf Model.Gpo',
+                  'KernelsGpo': ' Model.Seq Model.Vcf Model.Gpo Model.PyLoop'}
 
 
 def _kernel_extractor(name):
@@ -625,7 +636,7 @@ def _kernel_extractor(name):
         from . import pytrans
         targets = KERNEL_GROUPS[name]
         sources = {m: _src(m) for m in sorted({t[0] for t in targets} | set(KERNEL_EXTRA_SOURCES.get(name, [])))}
-        body = pytrans.translate(sources, targets, KERNEL_CONSTS.get(name, ()))
+        body = pytrans.translate(sources, targets, KERNEL_CONSTS.get(name, ()), KERNEL_BUILTINS.get(name, ()))
         pre = '(* IntPatternBuilder(offset, span) *)\nRecord pt := mkPt { pt_offset : Z; pt_span : Z }.\n\n' if name == 'KernelsPattern' else ''
         return ('(* translated from the source by harness/pytrans.py *)\nFrom VV Require Import Model.Base Model.Pattern Model.Transcript' + KERNEL_IMPORTS.get(name, '') + '.\n'
                 'Definition fact_extracted : bool := true.\n' + pre + body)
